@@ -15,6 +15,8 @@ import (
 	"verifharness/props/c06"
 	"verifharness/props/c07"
 	"verifharness/props/c08"
+	"verifharness/props/c09"
+	"verifharness/props/c10"
 	"verifharness/props/c12"
 	"verifharness/props/c17"
 	"verifharness/props/c18"
@@ -23,6 +25,8 @@ import (
 )
 
 var props = map[string]func(*core.Ctx) int{
+	"C10": c10.Run,
+	"C09": c09.Run,
 	"C20": c20.Run,
 	"C06": c06.Run,
 	"C08": c08.Run,
